@@ -65,8 +65,12 @@ def obj_job(spec):
                  "same_threshold": True, "same_header": True}
             try:
                 if op[0] == "ranges":
-                    e["L"] = op[1]
-                    m.apply_mask([(lo / 100.0, hi / 100.0) for lo, hi in op[1]])
+                    e["L"] = [[r[0], r[1]] for r in op[1]]
+                    cf = np.asarray(m.header.chan_freqs)      # the numbers THIS mask object reports for its channels
+                    # an endpoint "on channel k" is the very number the header reports for that channel (on a -0.1 MHz grid that is
+                    # not the decimal the label suggests)
+                    m.apply_mask([(float(cf[r[2]]) if len(r) > 2 and r[2] >= 0 else r[0] / 100.0,
+                                   float(cf[r[3]]) if len(r) > 2 and r[3] >= 0 else r[1] / 100.0) for r in op[1]])
                 elif op[0] == "method":
                     e["m"] = op[1]
                     m.apply_method(op[1])
@@ -146,7 +150,7 @@ def run(v) -> None:
     quick = v.tier == "quick"
     v.rule = "histories distinct by (statistics vectors, threshold, op sequence) / clean calls by (file, parameters); non-trivial = >= 2 ops or a clean call"
     v.assumptions += ["statistics vectors are integers (outlier predicates exact up to the 1e-4 bracket of the normalising constants)",
-                      "range endpoints coincide with channel labels only on integer-labelled bands; otherwise strictly between channels",
+                      "range endpoints are either strictly between channels / outside the band, or exactly the number the mask's own header reports for a channel (inclusive)",
                       "clean_rfi: explicit mask values representable at the file depth; the statistics part of its mask is only "
                       "required to be consistent (union, monotone), its values are checked at object level"]
     v.add_tlc(tlc.must_pass(tlc.run("MC_RFIMask", "MC_RFIMask_q.cfg" if quick else "MC_RFIMask.cfg", workers=14, timeout=3000),
@@ -158,8 +162,12 @@ def run(v) -> None:
         fch1, foff = (rng.choice([100.0, 1400.0]), rng.choice([-2.0, -0.5, 1.0])) if dy else (1500.0, rng.choice([-0.1, 0.3]))
 
         def vec():
-            kind = rng.choice(["equal", "one", "two", "rand", "ties"])
+            kind = rng.choice(["equal", "one", "two", "rand", "ties", "offset"])
             base = [rng.randrange(20, 60) for _ in range(C)]
+            if kind == "offset":       # a large common level with a spread of a few units and one clear outlier: relative spread ~1e-6
+                base = [1_000_000 + rng.choice([-1, 0, 0, 1]) for _ in range(C)]
+                base[rng.randrange(C)] += rng.choice([9, -12, 40])
+                return base
             if kind == "equal":
                 return [37] * C
             if kind == "one":
@@ -177,6 +185,10 @@ def run(v) -> None:
             k = rng.choice([0, 1, 2, 3])
             L = []
             for _ in range(k):
+                if (not dy) and rng.random() < 0.5:  # endpoints exactly on channels of a grid that is not binary-exact: the header's own numbers
+                    ka, kb = sorted(rng.sample(range(C), 2), key=lambda k: labs[k])
+                    L.append([int(round(labs[ka] * 100)), int(round(labs[kb] * 100)), ka, kb])
+                    continue
                 if dy and rng.random() < 0.6:       # endpoints exactly on channels
                     a, b = sorted(rng.sample(labs, 2)) if C >= 2 else (labs[0], labs[0])
                 else:                                # strictly between channels / outside the band
